@@ -125,7 +125,7 @@ def parse_wbv(out):
             cur = {"findex": int(d["findex"]), "ctype": int(d["type"]), "rows": int(d["rows"]), "cols": int(d["cols"]),
                    "unknowns": int(d["unknowns"]), "nstd": int(d["nstd"]), "nsys": int(d["nsys"]),
                    "nf": Fraction(float(d["nf"])), "tr": Fraction(float(d["tr"])), "tol": Fraction(float(d["tol"])),
-                   "limit": int(d["limit"]), "stds": [], "eqs": {}, "nov": {}, "xinit": None, "vinit": {},
+                   "limit": int(d["limit"]), "stds": [], "conn": {}, "szero": {}, "eqs": {}, "nov": {}, "xinit": None, "vinit": {},
                    "w": None, "events": []}
             recs.append(cur)
         elif cur is None:
@@ -142,6 +142,8 @@ def parse_wbv(out):
                 v, i = _cxs(t, i + 1, 1)
                 s.append((kn, v[0]))
             cur["stds"].append((m, s))
+        elif k in ("conn", "szero"):
+            cur[k][int(t[2])] = [int(x) for x in t[4:4 + int(t[3])]]
         elif k == "eq":
             s, std, row, col, n = (int(x) for x in t[2:7])
             terms = [tuple(int(x) for x in t[7 + 5 * j: 12 + 5 * j]) for j in range(n)]
